@@ -110,8 +110,10 @@ func verifyFunction(p *Program, ct *Contracts, fc *FuncContract, cc *CaseContrac
 		ens = append(append([]*Clause{}, ens...), cc.Ensures...)
 	}
 	for ri, r := range f.rets {
+		e.curBlk = r.blk
 		f.checkExit(ri, r, ens)
 	}
+	e.curBlk = nil
 	if len(f.rets) > 0 {
 		// canary: "ensures false" must fail at some exit
 		var pcs []string
@@ -160,8 +162,13 @@ func (f *Frame) checkExit(ri int, r retRec, ens []*Clause) {
 		if lbl == "" {
 			lbl = fmt.Sprint(k + 1)
 		}
-		g := env.evalBool(cl.Expr)
-		e.oblige("post", lbl, r.pc, g, "postcondition at return: "+cl.Src, r.pos, cl.Props)
+		for _, g := range env.evalSplit(cl.Expr) {
+			e.oblige("post", lbl, r.pc, g, "postcondition at return: "+cl.Src, r.pos, cl.Props)
+			// cut: a clause labelled cut.* has its own obligation and may then be used to prove the clauses after it
+			if strings.HasPrefix(cl.Label, "cut.") {
+				e.assume(r.pc, g)
+			}
+		}
 	}
 	// lock balance
 	if !f.fc.Lockfree {
@@ -265,6 +272,12 @@ func (f *Frame) evalClause(cl *Clause, st *State, b *ssa.BasicBlock) string {
 	return env.evalBool(cl.Expr)
 }
 
+func (f *Frame) evalClauseSplit(cl *Clause, st *State, b *ssa.BasicBlock) []string {
+	env := f.contractEnv(st, f.entry)
+	env.local = func(name string) *Value { return f.localAt(name, b, st) }
+	return env.evalSplit(cl.Expr)
+}
+
 // localAt resolves a source-level local variable name at loop head b.
 func (f *Frame) localAt(name string, b *ssa.BasicBlock, st *State) *Value {
 	// 1. phi of the head named `name`
@@ -336,8 +349,8 @@ func (e *Encoder) useLemma(name string) {
 		e.fail("unknown lemma %s", name)
 	}
 	e.axiomsIn[name] = true
-	e.emit("; lemma " + name)
-	e.emit("(assert " + lm.Formula + ")")
+	// lemmas are kept apart from the straight-line encoding: each obligation is tried without and with them
+	e.lemmaLines = append(e.lemmaLines, "; lemma "+name, "(assert "+lm.Formula+")")
 	if lm.Axiom {
 		e.note("axiom (assumed, not proved): " + name)
 	}
